@@ -24,12 +24,13 @@ def build(tier, seed):
     def bd():
         from bounded import c02
         t0 = time.time()
-        hit = c02.search(seed)
-        n, valid = c02.count_cases(seed)
+        nr, rl = (400, 5) if tier == "quick" else (6000, 7)
+        hit = c02.search(seed, nrandom=nr, randlen=rl)
+        n, valid = c02.count_cases(seed, nrandom=nr, randlen=rl)
         r = OR(id=f"{PROP}.Bd.reader.line_sequences", status=REFUTED if hit else PROVED, kind="Bd", role="bounded", target="ford.reader.FortranReader (real)",
                desc="statement stream of the real reader vs executable free-form assembly rules (comment stripping with the literal state carried across "
                     "continuation lines, leading/trailing '&', comment and blank lines in between, ';' splitting)",
-               bound=f"all sequences of <= 3 lines over {len(c02.LINES)} line kinds + 400 seeded random sequences of 5 lines: {n} sequences, {valid} valid free-form",
+               bound=f"all sequences of <= 3 lines over {len(c02.LINES)} line kinds + {nr} seeded random sequences of {rl} lines: {n} sequences, {valid} valid free-form",
                cases=valid, seconds=time.time() - t0, backend="enumeration")
         if hit:
             r.replay, r.witness = hit, hit["input"]
